@@ -660,6 +660,10 @@ def _loop_inserts(item, body_text, loops):
 
 
 def _hint_insert(item, body_text, h):
+    ghost0 = "\n proof { " + h["proof"].strip() + " }\n" if "proof" in h else "\n " + h["ghost"].strip() + "\n"
+    if h.get("at") == "start":
+        # body-independent placement: right after the opening brace of the function body
+        return (body_text.index("{") + 1, ghost0)
     anchor = h.get("after") or h.get("before")
     pat = _anchor_re(anchor)
     ms = list(pat.finditer(body_text))
